@@ -7,7 +7,7 @@
    hyps m d = wf_model m /\ tables_consistent m /\ mj_model m /\ wf_data m d, where d is ANY well-formed
    Data (a superset of the states a history can reach).
    obs d w = (the World record of world w: every field reset_data writes - integration state incl. act and
-   history, counters, sleep arrays, qacc, act_dot, sensordata, M, cvel, cdof_dot, ... - , the contacts
+   history, counters, sleep arrays, qacc, act_dot, sensordata, M, cvel, cdof_dot, efc.J - , the contacts
    reported for w). *)
 From Coq Require Import ZArith List Bool.
 From VF Require Import Base.Loop Model.Reset Proof.Reset.
